@@ -17,8 +17,8 @@ BIN = os.path.join(os.environ.get("CARGO_TARGET_DIR", os.path.join(ROOT, "target
 
 # quick-tier run counts (kept in step with checks.rs; only used to scale down)
 QUICK = {"C01": 20000, "C02": 20000, "C03": 300000, "C04": 300000, "C05": 40000, "C06": 20000,
-         "C07": 6000, "C10": 8000, "C13": 20000, "C14": 100000, "C15": 40000, "C17": 1200,
-         "C18": 20000, "C20": 1500}
+         "C07": 6000, "C10": 80000, "C13": 20000, "C14": 100000, "C15": 40000, "C17": 12000,
+         "C18": 20000, "C20": 2000}
 
 
 def one(check, seed, workers, runs, home):
